@@ -140,7 +140,7 @@ def core_check(pid, props_mod, fail_pids, modes=('walk', 'boundary', 'pairs'), s
         run.trusted += CORE_TRUST
         # the judge's oracles never fire on the model's own behaviour (no oracle demands more than M1 guarantees)
         orc = ['mustPanic_sound', 'opOracle_sound', 'opOracle_pack_weaker', 'frameOracle_sound', 'boundsOracle_sound', 'uniqOracle_sound',
-               'stateOracles_step_sound']
+               'stateOracles_step_sound', 'lenCapOracle_sound', 'lenCapOracle_step_sound', 'boundsLenCap_sound']
         reso = vlib.lake_build(['BytesVerif.Props.OracleSound'])
         fullo = ['BytesVerif.Judge.SeqJ.' + t for t in orc]
         if reso['BytesVerif.Props.OracleSound'][0]:
